@@ -70,7 +70,28 @@ class TimedHarness:
             s.open_window()
         w0 = 0 if pre else s.steps
         ids, raised = [], []
+        racer = p.get("racer")
         for i, src in enumerate(p["sources"]):
+            if racer and racer["before"] == i:
+                # another thread makes a cancel call that matches nothing while this source is posted
+                go = sched.CEvent()
+
+                def race():
+                    go.set()
+                    if racer["op"] == "post_timed":
+                        # the other thread starts a timed source of its own at the same moment
+                        try:
+                            rid = ao.post_fifo(Event(signal="R", payload="racer"), period=0.5, times=0, deferred=True)
+                            s.note("racer-source-started", str(rid))
+                        except ao_mod.ActiveObjectOutOfPostedEventResources:
+                            s.note("racer-source-rejected")
+                    elif racer["op"] == "cancel_unknown":
+                        ao.cancel_event(uuid="no-such-source")
+                    else:
+                        ao.cancel_events(Event(signal="NEVER_POSTED"))
+                    s.note("racer-done", racer["op"])
+                sched.CThread(target=race, name="racer").start()
+                go.wait()
             if src.get("at"):       # a source started later: the caller sleeps until that virtual instant
                 d = src["at"] - s.now
                 if d > 0:
@@ -97,7 +118,8 @@ class TimedHarness:
                "tracked": [(pe.signal_name, str(pe.uuid)) for pe in ao.posted_events_queue],
                "running": {str(pe.uuid): bool(pe.task_run_event._flag) for pe in ao.posted_events_queue},
                "ids": [None if i is None else str(i) for i in ids],
-               "raised": raised, "notes": [(x[0], x[1]) + tuple(x[3:]) for x in s.log if x[3] in ("cancel-returned", "source-rejected")],
+               "raised": raised, "notes": [(x[0], x[1]) + tuple(x[3:]) for x in s.log if x[3] in ("cancel-returned", "source-rejected", "racer-source-started",
+                                                                                "racer-source-rejected", "racer-done")],
                "thread_exceptions": [x[:3] for x in s.thread_exceptions], "end_time": s.now}
         obs["latency"] = s.clock_deviations > 0
         obs.update(extra)
